@@ -1,12 +1,15 @@
 mod abi;
 mod checks;
+mod artifacts;
 mod e1;
+mod e2;
 mod e3;
 mod hashseed;
 mod indep;
 mod model;
 mod project;
 mod rng;
+mod sandbox;
 mod sim;
 mod wgen;
 
@@ -14,7 +17,7 @@ use sim::{Engine, Tier};
 use std::path::Path;
 
 fn engines() -> Vec<Box<dyn Engine>> {
-    vec![Box::new(e1::E1), Box::new(e3::E3)]
+    vec![Box::new(e1::E1), Box::new(e2::E2), Box::new(e3::E3)]
 }
 
 fn ctx_from_env(args: &[String]) -> checks::Ctx {
@@ -51,7 +54,13 @@ fn ctx_from_env(args: &[String]) -> checks::Ctx {
 fn main() {
     let args: Vec<String> = std::env::args().collect();
     match args.get(1).map(|s| s.as_str()) {
-        Some("worker") => sim::worker_main(&engines()),
+        Some("worker") => {
+            // private mount namespace + tmpfs before any thread exists
+            if let Err(e) = sandbox::enter_namespace() {
+                eprintln!("NVSIM-NAMESPACE-ERROR: {e}");
+            }
+            sim::worker_main(&engines())
+        }
         Some("check") => {
             let ctx = ctx_from_env(&args[2..]);
             let id = args.get(2).expect("property id");
@@ -61,6 +70,18 @@ fn main() {
             let ctx = ctx_from_env(&args[2..]);
             let path = args.get(2).expect("replay file");
             std::process::exit(checks::replay_file(&ctx, &engines(), path, true));
+        }
+        Some("inside") => {
+            // nvsim inside <e2-scenario.json> <shell command>: materialise the scenario's tree in a
+            // private namespace and run a shell command there (debugging aid)
+            sandbox::enter_namespace().expect("namespace");
+            let v: serde_json::Value = serde_json::from_str(&std::fs::read_to_string(&args[2]).unwrap()).unwrap();
+            let v = if v.get("scenario").is_some() { v["scenario"].clone() } else { v };
+            let sc: e2::E2Scenario = serde_json::from_value(v).unwrap();
+            sandbox::reset_tree(&sc.tree_bytes());
+            let st = std::process::Command::new("bash").arg("-c").arg(&args[3]).current_dir(&sc.project.cwd)
+                .env("NVSIM_ARGS", sc.project.config_args().join(" ")).status().unwrap();
+            std::process::exit(st.code().unwrap_or(1));
         }
         Some("scenario") => {
             // nvsim scenario <engine> <variant> <run_seed>
